@@ -410,5 +410,44 @@ def run(ck):
                           'except {} in {} re-raises{}'.format(typ, qual, '' if reraises else ' -- named exception: ' + str(exc)),
                           key='WMC-swallow|{}|{}|{}'.format(module.rel, qual, typ))
     ck.expect_count('WMC except handlers in the parser modules', nh, 5)
+    # ------------------------------------------------------------ mapping weights (.mapping and backward-style .map)
+    mpd = method(mapd, '_mapping')
+    ck.need(mpd is not None, 'MappingDirector._mapping vanished')
+    ck.analysed(mp, mpd)
+    wdefs = stmts_with_env(mpd, lambda s_: isinstance(s_, ast.Assign) and u(s_.targets[0]) == 'weight')
+    vals = sorted(u(d[0].value) for d in wdefs)
+    split = [s_ for s_ in mpd.body if isinstance(s_, ast.Assign) and isinstance(s_.targets[0], ast.Tuple) and u(s_.value) == 'line.split()']
+    ok = vals == ['1', 'int(weight[0])'] and len(split) == 1 and [u(e) for e in split[0].targets[0].elts] == ['from_', 'to_', '*weight']
+    call = [c for c in walk_local(mpd) if isinstance(c, ast.Call) and call_attr(c) == 'add_mapping']
+    ok = ok and len(call) == 1 and [u(a) for a in call[0].args] == ['attrs_from', 'attrs_to', 'weight'] and \
+        u(single_def(mpd, 'attrs_from')) == "self._resolve_atom_spec(from_, 'from')" and u(single_def(mpd, 'attrs_to')) == "self._resolve_atom_spec(to_, 'to')"
+    ck.ob('PROV-map-weights', mp.loc(mpd), ok, 'a [ mapping ] line "<from> <to> [weight]" records the written weight (default 1) between exactly those two atoms', key='PROV-map-weights|mapping-line')
+    mb = mp.cls('MappingBuilder')
+    am = method(mb, 'add_mapping')
+    st = [s_ for s_ in walk_local(am) if isinstance(s_, ast.Assign) and isinstance(s_.targets[0], ast.Subscript)]
+    ck.ob('PROV-map-weights', mp.loc(am), len(st) == 1 and u(st[0]) == 'self.mapping[nodes_from[0]][nodes_to[0]] = weight' and 'assert len(nodes_from) == len(nodes_to) == 1' in u(am),
+          'the builder stores that weight under (source atom, target atom), each resolved to exactly one atom', key='PROV-map-weights|builder')
+    mi = idx.mod('vermouth/map_input.py')
+    cw = mi.func('_compute_weights')
+    ck.analysed(mi, cw)
+    pre = single_def(cw, 'pre_weights')
+    ok = pre is not None and isinstance(pre, ast.DictComp) and 'collections.Counter([to_atom for to_atom in to_atoms if not to_atom.startswith(\'!\')])' in u(pre) \
+        and u(pre.generators[0].iter) == 'mapping.items()' and not pre.generators[0].ifs
+    ck.ob('PROV-map-weights', mi.loc(cw), ok, 'backward-style .map: a source atom listed k times for a target gets multiplicity k; targets marked "!" are left out of the count',
+          key='PROV-map-weights|multiplicity')
+    norm = [l for l in cw.body if isinstance(l, ast.For) and u(l.iter) == 'pre_weights.values()']
+    ok = len(norm) == 1 and 'total = sum(atom_weights.values())' in u(norm[0]) and 'atom_weights[to_atom] /= total' in u(norm[0]) and \
+        not any(isinstance(n, (ast.If, ast.Continue, ast.Break)) for n in ast.walk(norm[0]))
+    ck.ob('PROV-map-weights', mi.loc(cw), ok, 'the multiplicities of one source atom are normalised by their sum, for every source atom', key='PROV-map-weights|normalised')
+    nw = single_def(cw, 'null_weights')
+    ok = nw is not None and isinstance(nw, ast.DictComp) and u(nw.key) == 'to_atom[1:]' and u(nw.value) == '{from_atom: 0 for from_atom in from_atoms}' and \
+        [u(c) for c in nw.generators[0].ifs] == ["to_atom.startswith('!')"] and u(nw.generators[0].iter) == 'rev_mapping.items()'
+    ck.ob('PROV-map-weights', mi.loc(cw), ok, 'a target written "!X" maps its source atoms to X with weight 0', key='PROV-map-weights|null')
+    raise_condition_is(ck, mi, cw, lambda st_, c_: True, lambda k: 'CONFLICT' if (k[0] == 'truth' and 'null_keys' in atom_text(k) or k[0] == 'truth') else None,
+                       'CONFLICT', 'the same source atom mapped to one target both with and without "!"', 'DT-reject|map-null-conflict')
+    rp = mi.func('_read_mapping_partial')
+    ck.analysed(mi, rp)
+    dup = [(st_, c_) for st_, c_, e_ in raise_conditions(rp) if any(k[0] == 'In' and k[1] == 'from_atom' and k[2] == 'mapping' for k in flow.atoms_of(c_))]
+    ck.ob('DT-reject', mi.loc(rp), len(dup) == 1, 'a source atom defined twice in [ atoms ] is rejected', key='DT-reject|map-duplicate-atom')
     shared.truthy_zero(ck, [FF, ITP, PU, MAP, 'vermouth/map_input.py'])
     ck.assume('token-level grammar, macro substitution results and .map weight arithmetic are not decided')
